@@ -18,14 +18,12 @@ Lemma PREC_E9 : PREC = E9 * E9. Proof. reflexivity. Qed.
 Lemma PREC_pos : 0 < PREC. Proof. reflexivity. Qed.
 Lemma HALF_2 : 2 * HALF = PREC. Proof. reflexivity. Qed.
 Lemma LIMIT_pos : 0 < DEC_LIMIT. Proof. reflexivity. Qed.
-Lemma const_1 : SAFE_RATE + (SAFE_RATE / 2 + 1) <= DEC_LIMIT.
-Proof. apply Z.leb_le. vm_compute. reflexivity. Qed.
-Lemma const_2 : SAFE_RATE + SD_MAX <= DEC_LIMIT.
+Lemma const_2 : 2 * SD_MAX + 2 <= DEC_LIMIT.
 Proof. apply Z.leb_le. vm_compute. reflexivity. Qed.
 Lemma const_3 : SD_MAX <= DEC_LIMIT.
 Proof. apply Z.leb_le. vm_compute. reflexivity. Qed.
-Lemma const_4 : SAFE_RATE <= DEC_LIMIT.
-Proof. apply Z.leb_le. vm_compute. reflexivity. Qed.
+Lemma const_5 : PREC * 2 ^ 63 <= DEC_LIMIT /\ 2 ^ 63 + 1 < 2 ^ 256.
+Proof. split; [apply Z.leb_le | apply Z.ltb_lt]; vm_compute; reflexivity. Qed.
 Lemma SD_MAX_nonneg : 0 <= SD_MAX.
 Proof. apply Z.leb_le. vm_compute. reflexivity. Qed.
 
@@ -125,40 +123,79 @@ Qed.
 (* ---------------------------------------------------------------- Tally does not overflow *)
 
 Lemma tally_ok_in_domain band vs m :
-  0 <= band <= PREC -> 0 < m <= SAFE_RATE -> tally_ok band vs m = true.
+  0 <= band <= PREC -> 0 < m <= DEC_LIMIT -> (forall v, In v vs -> Z.abs (pv_rate v) <= DEC_LIMIT) ->
+  tally_ok band vs m = true.
 Proof.
-  intros Hb Hm. unfold tally_ok, reward_spread.
+  intros Hb Hm Hv. unfold tally_ok, reward_spread. cbv zeta.
   pose proof (quo_int_half band Hb) as Hq.
   pose proof (mul_half_bound m (quo_int band 2) ltac:(lia) Hq) as Hs.
   pose proof (stddev_bound vs m) as Hsd.
-  pose proof const_1. pose proof const_2. pose proof const_3. pose proof const_4.
-  assert (m / 2 <= SAFE_RATE / 2) by (apply Z.div_le_mono; lia).
-  assert (0 <= m / 2) by (apply Z.div_pos; lia).
+  pose proof const_2. pose proof const_3.
+  assert (Hd : 2 * (m / 2) <= m < 2 * (m / 2) + 2) by (pose proof (Z.div_mod m 2 ltac:(lia)); pose proof (Z.mod_pos_bound m 2 ltac:(lia)); lia).
   set (s := mul m (quo_int band 2)) in *. set (sd := stddev vs m) in *.
-  rewrite !andb_true_iff, !in_range_iff.
-  destruct (s <? sd) eqn:E; [apply Z.ltb_lt in E | apply Z.ltb_ge in E]; lia.
+  set (sp := if s <? sd then sd else s).
+  assert (Hsp : 0 <= sp /\ (sp <= m / 2 + 1 \/ sp <= SD_MAX)).
+  { unfold sp. destruct (s <? sd) eqn:E; [apply Z.ltb_lt in E | apply Z.ltb_ge in E]; lia. }
+  rewrite !andb_true_iff, !in_range_iff. split; [split; [lia|lia]|].
+  apply forallb_forall. intros v Hin. specialize (Hv v Hin).
+  destruct (m - sp <=? pv_rate v) eqn:E; [|reflexivity]. apply Z.leb_le in E. simpl.
+  apply in_range_iff. lia.
 Qed.
 
-Lemma median_in_safe_range p st h pr :
+Lemma median_in_range p st h pr :
   wf st -> domain p st h = true -> quorum p st pr ->
-  0 < wmedian true (pair_votes st pr) <= SAFE_RATE.
+  0 < wmedian true (pair_votes st pr) <= DEC_LIMIT.
 Proof.
   intros Hw Hd Hq. destruct (median_submitted p st pr Hw Hq) as [Hpos [a [pw [Ha [Ht _]]]]].
   split; [exact Hpos|].
-  apply domain_inv in Hd as [_ [Hv _]]. specialize (Hv a _ Ha Ht). simpl in Hv. lia.
+  apply domain_inv in Hd as [_ [_ [_ [_ [_ Hv]]]]]. specialize (Hv a _ Ha Ht). simpl in Hv. lia.
+Qed.
+
+Lemma pair_votes_in_range p st h pr v :
+  domain p st h = true -> In v (pair_votes st pr) -> Z.abs (pv_rate v) <= DEC_LIMIT.
+Proof.
+  intros Hd Hin. destruct (pair_votes_in _ _ _ Hin) as [a [t [pw [Ha [Ht [_ [_ [Hr _]]]]]]]].
+  apply domain_inv in Hd as [_ [_ [_ [_ [_ Hv]]]]]. rewrite Hr. apply (Hv a t Ha Ht).
+Qed.
+
+Lemma chop_round_abs_le d : Z.abs (chop_round d) <= Z.abs d / PREC + 1.
+Proof.
+  unfold chop_round. destruct (d <? 0) eqn:E.
+  - apply Z.ltb_lt in E. pose proof (chop_round_pos_le (- d) ltac:(lia)). rewrite (Z.abs_neq d) by lia. lia.
+  - apply Z.ltb_ge in E. pose proof (chop_round_pos_le d E). rewrite (Z.abs_eq d) by lia. lia.
+Qed.
+
+Lemma threshold_ok_in_domain p st h : domain p st h = true -> threshold_ok p (bonded_power st) = true.
+Proof.
+  intro Hd. apply domain_inv in Hd as [_ [Ht [_ [_ [Hb _]]]]].
+  unfold threshold_ok, threshold_power, threshold_raw, round_int, mul_int.
+  destruct const_5 as [C1 C2]. pose proof PREC_pos.
+  assert (Hx : 0 <= p_threshold p * bonded_power st <= PREC * 2 ^ 63) by nia.
+  apply andb_true_iff. split; [apply in_range_iff; lia|]. apply Z.ltb_lt.
+  pose proof (chop_round_abs_le (p_threshold p * bonded_power st)).
+  assert (Z.abs (p_threshold p * bonded_power st) / PREC <= 2 ^ 63).
+  { rewrite Z.abs_eq by lia. apply Z.div_le_upper_bound; lia. }
+  lia.
+Qed.
+
+Lemma tally_all_ok p st h :
+  wf st -> domain p st h = true ->
+  forallb (fun pm => tally_ok (p_reward_band p) (pair_votes st (fst pm)) (snd pm))
+          (map (fun pr => (pr, wmedian true (pair_votes st pr))) (valid_pairs p st)) = true.
+Proof.
+  intros Hw Hd. destruct (domain_inv p st h Hd) as [_ [_ [_ [Hb _]]]].
+  apply forallb_forall. intros [pr m] Hin. simpl.
+  apply in_map_iff in Hin as [pr' [E Hv]]. injection E as -> <-.
+  apply valid_pairs_iff in Hv.
+  apply tally_ok_in_domain; [exact Hb | eapply median_in_range; eauto |].
+  intros v Hin. eapply pair_votes_in_range; eauto.
 Qed.
 
 Theorem update_no_panic p st h : wf st -> domain p st h = true -> update true p st h <> Panic.
 Proof.
   intros Hw Hd. unfold update.
-  destruct (domain_inv p st h Hd) as [Hr [_ [_ [_ Hb]]]].
-  rewrite Hr. rewrite andb_false_r.
-  match goal with |- (if ?c then _ else _) <> _ => assert (Hc : c = true) end.
-  { apply forallb_forall. intros [pr m] Hin. simpl.
-    apply in_map_iff in Hin as [pr' [E Hv]]. injection E as -> <-.
-    apply valid_pairs_iff in Hv.
-    apply tally_ok_in_domain; [exact Hb|]. eapply median_in_safe_range; eauto. }
-  rewrite Hc. discriminate.
+  rewrite (threshold_ok_in_domain p st h Hd), andb_false_r.
+  rewrite (tally_all_ok p st h Hw Hd). discriminate.
 Qed.
 
 (** full strength, for every input of the domain *)
